@@ -17,7 +17,120 @@ def fltB (a b : Float) : Bool := a < b
 
 def dist2Q (p : V3 Rat) (b : Aabb3 Rat) : Rat := dist2 p b
 
+/-! ## `composite_*`: the real composite query against the brute-force reduction of the same real per-part query
+(implementation vs implementation; the harness prints `<composite> ; <brute force> [; <qualifier>]`) -/
+
+inductive Item where
+  | val (x : Float)
+  | tok (t : String)
+deriving Inhabited
+
+def parseItems : List String → List Item
+  | [] => []
+  | "v" :: x :: rest => (match pfo1 x with | some f => Item.val f | none => Item.tok x) :: parseItems rest
+  | t :: rest => Item.tok t :: parseItems rest
+where
+  pfo1 (t : String) : Option Float := if t = "nan" then some (0.0 / 0.0) else FloatIO.ofHex? t
+
+def splitSemi (toks : List String) : List (List String) :=
+  let rec go (acc : List String) (segs : List (List String)) : List String → List (List String)
+    | [] => (acc.reverse :: segs).reverse
+    | ";" :: rest => go [] (acc.reverse :: segs) rest
+    | t :: rest => go (t :: acc) segs rest
+  go [] [] toks
+
+/-- tolerance of the per-part routines (GJK-based distances and times of impact are accurate to ~5e-8 relative) -/
+def tolC : Rat := 1 / 1000000
+def closeF (a b : Float) : Bool :=
+  FloatIO.isFinite a && FloatIO.isFinite b && leTol (q a) (q b) tolC && leTol (q b) (q a) tolC
+
+/-- one scalar answer against its brute-force counterpart; `lim` = the cut-off parameter (margin / prediction /
+max time of impact) at which "no answer" and "an answer" legitimately meet -/
+def closeTol (tol : Rat) (a b : Float) : Bool :=
+  FloatIO.isFinite a && FloatIO.isFinite b && leTol (q a) (q b) tol && leTol (q b) (q a) tol
+
+def cmpItem (lim : Option Float) (a b : Item) (tol : Rat := tolC) : Option String :=
+  match a, b with
+  | .val x, .val y => if closeTol tol x y then none else some s!"value-differs composite={q x} parts={q y}"
+  | .tok s, .tok t =>
+    if s == t then none
+    else if (s == "I" && t == "D") || (s == "D" && t == "I") then some s!"verdict-differs composite={s} parts={t}"
+    else some s!"verdict-differs composite={s} parts={t}"
+  | .tok s, .val y =>
+    if s == "I" then (if closeF y 0.0 then none else some s!"composite-intersecting parts-gap={q y}")
+    else match lim with
+      | some l =>
+        if closeF y l then none
+        -- "no hit" against "hit at time 0": the ray / the shape starts exactly on the surface (a tie, not judged)
+        else if closeF y 0.0 then some "tie start-on-surface"
+        else some s!"composite={s} parts={q y}"
+      | none => some s!"composite={s} parts={q y}"
+  | .val x, .tok t =>
+    if t == "I" then (if closeF x 0.0 then none else some s!"parts-intersecting composite-gap={q x}")
+    else match lim with
+      | some l =>
+        if closeF x l then none
+        else if closeF x 0.0 then some "tie start-on-surface"
+        else some s!"composite={q x} parts={t}"
+      | none => some s!"composite={q x} parts={t}"
+
+def idsOf (t : String) : List Nat := (t.splitOn ",").filterMap String.toNat?
+
+def compOracle (fn : String) (out : List String) : String :=
+  match out with
+  | "panic" :: rest => "fail panic " ++ " ".intercalate (rest.take 3)
+  | _ =>
+    match splitSemi out with
+    | a :: b :: rest =>
+      if a == ["unsupported"] then "skip unsupported-pair" else
+      let qual := rest.head?.getD []
+      let lim : Option Float := match qual with
+        | ["lim", x] => FloatIO.ofHex? x
+        | _ => none
+      let tie : Option Float := match qual with
+        | ["tie", "v", x] => FloatIO.ofHex? x
+        | _ => none
+      if fn == "composite_aabb" then
+        match a, b with
+        | ["sup", _], ["sup", n] => if n == "0" then "pass" else s!"fail overlapping-elements-not-reported {n}"
+        | ["ids", x], ["ids", y] =>
+          let got := idsOf x
+          match (idsOf y).filter (fun i => !got.contains i) with
+          | [] => "pass"
+          | i :: _ => s!"fail overlapping-part-not-reported {i}"
+        | ["ids"], ["ids"] => "pass"
+        | ["ids", _], ["ids"] => "pass"
+        | ["ids"], ["ids", y] => s!"fail overlapping-part-not-reported {y}"
+        | _, _ => "fail unparsable-output"
+      else
+        let A := parseItems a
+        let B := parseItems b
+        if b == ["X"] then
+          -- some part answers intersection_test = true although its own distance is positive: the per-part verdicts
+          -- disagree among themselves (property C02), the composite (which says false) is not at fault
+          s!"fail part-verdicts-inconsistent intersection_test=true-at-distance={match tie with | some t => toString (q t) | none => "?"}"
+        else
+        if A.length != B.length || A.isEmpty then "fail unparsable-output" else
+        -- Boolean verdicts may differ only when the configuration is a tie (shapes / point exactly touching)
+        let isTie := match tie with
+          | some t => closeF t 0.0
+          | none => false
+        let isRayOrCast := fn == "composite_ray" || fn == "composite2_ray" || fn == "composite_cast" || fn == "composite2_cast"
+        -- times of impact of the GJK-based per-part casts are accurate to ~1e-5 relative on extreme aspect ratios
+        let tol : Rat := if fn == "composite_cast" || fn == "composite2_cast" then 1 / 10000 else tolC
+        let probs := (A.zip B).filterMap (fun (x, y) => cmpItem lim x y tol)
+        match probs.filter (fun w => !(isRayOrCast && w.startsWith "tie")) with
+        | [] => if probs.isEmpty then "pass" else "skip tie start-on-surface"
+        | why :: _ =>
+          if isTie && (fn == "composite_it" || fn == "composite_point" || fn == "composite2_it" || fn == "composite2_point")
+              && why.startsWith "verdict-differs" then "skip tie"
+          else s!"fail {why}"
+    | _ => "fail unparsable-output"
+
 def handler (fn : String) : Option Handler :=
+  if fn.startsWith "composite_" || fn.startsWith "composite2_" then some {
+    model := fun _ => some "-"
+    oracle := fun _ o => compOracle fn o } else
   match fn with
   | "bf_point" => some {
       model := fun a => (run pbf a).map fun (ops, p) =>
